@@ -33,12 +33,14 @@ pub enum Sym {
     WvdNeg,
     WvdGap,
     WvdHalfGap,
+    WvdAlmostHalfGap,
     WvdBHalf,
     WvdBigCts,
     WvdHuge,
     WaEqual,
     WaPlus,
     WaHalfGap,
+    WaAlmostHalfGap,
     WaMinus,
     WaBeforeVideo,
     WaBadSync,
@@ -81,9 +83,11 @@ pub const FULL: &[Sym] = &[
     Sym::WvdNeg,
     Sym::WvdGap,
     Sym::WvdHalfGap,
+    Sym::WvdAlmostHalfGap,
     Sym::WvdBHalf,
     Sym::WvdBigCts,
     Sym::WaHalfGap,
+    Sym::WaAlmostHalfGap,
     Sym::WvdHuge,
     Sym::WaMinus,
     Sym::WaBeforeVideo,
@@ -115,6 +119,7 @@ pub const CORE: &[Sym] = &[
     Sym::WvdGap,
     Sym::WvdHalfGap,
     Sym::WvdBigCts,
+    Sym::WaAlmostHalfGap,
     Sym::EvKey,
 ];
 
@@ -147,7 +152,7 @@ impl Fixtures {
             empty: Bytes::new(vec![]),
         };
         for i in 0..MAX_DEPTH as u32 {
-            f.key_cfg.push(Bytes::new(frames::video_frame(c, true, true, i + 1, 3 + i as usize).0));
+            f.key_cfg.push(Bytes::new(frames::video_frame_variant(c, true, true, i + 1, 3 + i as usize, (i % 4) as u8).0));
             f.delta.push(Bytes::new(frames::video_frame(c, false, false, i + 1, 3 + i as usize).0));
             f.key_nocfg.push(Bytes::new(match c {
                 VCodec::Vp9 => {
@@ -289,6 +294,13 @@ pub fn concretize(sym: Sym, step: usize, m: &Contract, fx: &Fixtures) -> Op {
             let t = last_d.map(|x| x + 2.0 * FRAME).unwrap_or(next);
             wvd(t + (2147483648.0 + 9000.0) / 90000.0, t, d, k)
         }
+        Sym::WvdAlmostHalfGap => {
+            // the largest gap whose doubled value still fits 32 bits when it is the second frame
+            // (just inside the cumulative rule)
+            let (d, k) = ordinary(m);
+            let t = last_d.unwrap_or(0.0) + (2147483648.0 - 900.0) / 90000.0;
+            wvd(t, t, d, k)
+        }
         Sym::WvdBHalf => {
             // half a frame after the last decode time, presented at its decode time: makes
             // sample durations unequal in reordered streams
@@ -303,6 +315,7 @@ pub fn concretize(sym: Sym, step: usize, m: &Contract, fx: &Fixtures) -> Op {
         Sym::WaEqual => wa(a_base, &fx.audio_ok[i]),
         Sym::WaPlus => wa(a_base + 0.02, &fx.audio_ok[i]),
         Sym::WaHalfGap => wa(a_base + (2147483648.0 + 1800.0) / 90000.0, &fx.audio_ok[i]),
+        Sym::WaAlmostHalfGap => wa(a_base + (2147483648.0 - 900.0) / 90000.0, &fx.audio_ok[i]),
         Sym::WaMinus => wa((a_base - 0.01).max(0.0), &fx.audio_ok[i]),
         Sym::WaBeforeVideo => wa(first.map(|f| (f - 0.5).max(0.0)).unwrap_or(0.25), &fx.audio_ok[i]),
         Sym::WaBadSync => wa(a_base + 0.5, &fx.bad_sync),
@@ -431,7 +444,7 @@ pub fn c05_issues(cfg: &Cfg, tr: &Trace) -> (Vec<(String, String)>, u64) {
     let mut out = vec![];
     let mut runs = 0u64;
     let rejected: Vec<usize> = (0..tr.ops.len()).filter(|&i| !tr.ops[i].is_finish() && matches!(tr.results[i], Res::Err(..))).collect();
-    if rejected.is_empty() || tr.results.iter().any(|r| matches!(r, Res::Panic(_))) {
+    if rejected.is_empty() {
         return (out, runs);
     }
     let reason = |i: usize| match &tr.results[i] {
